@@ -10,9 +10,9 @@ import (
 // data are the satisfying (transformed) values of link 1 followed by those of link 2; a second
 // rule placed after the chain is evaluated regardless (configuration order).
 func VpC01Chain() {
-	pool := []int{1, 5, 8, 3, 16} // ARGS:k, ARGS_NAMES, &ARGS, ARGS_GET, REQUEST_HEADERS:k
-	t1i := pool[vp.Choice("target1", len(pool))]
-	t2i := pool[vp.Choice("target2", len(pool))]
+	pool := []int{1, 5, 16, 8, 3} // ARGS:k, ARGS_NAMES, REQUEST_HEADERS:k, &ARGS, ARGS_GET
+	t1i := pool[vp.Choice("target1", vp.Param("POOL", len(pool)))]
+	t2i := pool[vp.Choice("target2", vp.Param("POOL", len(pool)))]
 	t1, t2 := vpC01Targets[t1i], vpC01Targets[t2i]
 	neg1 := vp.Choice("negate1", 2) == 1
 	neg2 := vp.Choice("negate2", 2) == 1
